@@ -14,7 +14,7 @@ set_option linter.unusedSimpArgs false
 
 variable {K V : Type} [Field K] [LinearOrder K] [IsStrictOrderedRing K] [AddCommGroup V] [Module K V]
 variable (c : Cfg K) (f : V → K × V) (hessp : V → V → V) (ip : V → V → K) (gradnorm : V → K)
-  (cg : V → V → V × Int)
+  (cgnorm : V → K) (cg : CgArgs K → V → V → V × Int)
 
 theorem lsStaticLoop_done (pos : V) (e : K) (g : V) (fuel : Nat) (v : LsSt K V) (h : ¬ v.status < -1) :
     lsStaticLoop f hessp ip pos e g fuel v = v := by
@@ -73,34 +73,37 @@ theorem lineSearch_sim (pos : V) (energy : K) (g natg : V) :
   ls_sim f hessp ip pos energy g 9 0 1 natg false pos energy g (by omega) (by omega)
 
 /-- compiled state corresponding to the eager state at the start of iteration `i` -/
-def sOf (s : NSt K V) (i : Nat) : SSt K V := ⟨-2, i - 1, s.pos, s.energy, s.g⟩
+def sOf (s : NSt K V) (i : Nat) : SSt K V := ⟨-2, i - 1, s.pos, s.energy, s.g, s.oldF⟩
 
 def resOf (v : SSt K V) : NRes K V := ⟨v.pos, v.status, v.energy, v.g, v.it⟩
 
-theorem ncgStep_sim (i : Nat) (hi : 1 ≤ i) (s : NSt K V) :
-    match ncgEagerStep c f hessp ip gradnorm cg i s with
-    | .stop (.ok r) => ∃ v, ncgStaticStep c f hessp ip gradnorm cg (sOf s i) = some v ∧ resOf v = r ∧ -1 ≤ r.status
-    | .stop (.error _) => ncgStaticStep c f hessp ip gradnorm cg (sOf s i) = none
-    | .next s' => ncgStaticStep c f hessp ip gradnorm cg (sOf s i)
+theorem ncgStep_sim (i : Nat) (hi : 1 ≤ i) (s : NSt K V)
+    (hargs : cg (eagerCgArgs c cgnorm s) s.pos s.g = cg (staticCgArgs c cgnorm (sOf s i)) s.pos s.g) :
+    match ncgEagerStep c f hessp ip gradnorm cgnorm cg i s with
+    | .stop (.ok r) => ∃ v, ncgStaticStep c f hessp ip gradnorm cgnorm cg (sOf s i) = some v ∧ resOf v = r ∧ -1 ≤ r.status
+    | .stop (.error _) => ncgStaticStep c f hessp ip gradnorm cgnorm cg (sOf s i) = none
+    | .next s' => ncgStaticStep c f hessp ip gradnorm cgnorm cg (sOf s i)
         = some { sOf s' (i + 1) with status := if i = c.maxiter then (i : Int) else -2 } := by
   have hi1 : i - 1 + 1 = i := by omega
   have hiI : ¬ ((i : Int) < -1) := by omega
-  have hls := lineSearch_sim f hessp ip s.pos s.energy s.g (cg s.pos s.g).1
+  have hls := lineSearch_sim f hessp ip s.pos s.energy s.g (cg (eagerCgArgs c cgnorm s) s.pos s.g).1
+  simp only [sOf] at hargs
   unfold ncgEagerStep ncgStaticStep
   simp only [sOf, hi1]
-  by_cases hc : (cg s.pos s.g).2 < 0
+  simp only [← hargs]
+  by_cases hc : (cg (eagerCgArgs c cgnorm s) s.pos s.g).2 < 0
   · simp only [hc, if_true]
   · simp only [hc, if_false]
-    by_cases hf : (lineSearchEager f hessp ip s.pos s.energy s.g (cg s.pos s.g).1).found = false
+    by_cases hf : (lineSearchEager f hessp ip s.pos s.energy s.g (cg (eagerCgArgs c cgnorm s) s.pos s.g).1).found = false
     · have hS := hls.2 hf
       simp only [hf, if_true, hS]
       refine ⟨_, rfl, ?_, by simp⟩
       simp [resOf]
-    · have hf' : (lineSearchEager f hessp ip s.pos s.energy s.g (cg s.pos s.g).1).found = true := by
+    · have hf' : (lineSearchEager f hessp ip s.pos s.energy s.g (cg (eagerCgArgs c cgnorm s) s.pos s.g).1).found = true := by
         simpa using hf
       obtain ⟨h0, hp, he, hg, hdd, hgs, hit⟩ := hls.1 hf'
       simp only [hf', Bool.true_eq_false, if_false, h0, hp, he, hg, hdd, hgs, hit]
-      generalize (lineSearchEager f hessp ip s.pos s.energy s.g (cg s.pos s.g).1) = R
+      generalize (lineSearchEager f hessp ip s.pos s.energy s.g (cg (eagerCgArgs c cgnorm s) s.pos s.g).1) = R
       cases hab : c.absdelta with
       | none =>
         by_cases hx : R.gs * gradnorm R.dd ≤ c.xtol ∧ c.miniter < i
@@ -149,24 +152,27 @@ theorem ncgStep_sim (i : Nat) (hi : 1 ≤ i) (s : NSt K V) :
               · simp [h, eq_false hm, hiI, resOf]
 
 theorem ncgStaticLoop_done (fuel : Nat) (v : SSt K V) (h : ¬ v.status < -1) :
-    ncgStaticLoop c f hessp ip gradnorm cg fuel v = some v := by
+    ncgStaticLoop c f hessp ip gradnorm cgnorm cg fuel v = some v := by
   cases fuel <;> simp [ncgStaticLoop, h]
 
-theorem ncgLoop_sim : ∀ (fuel i : Nat) (s : NSt K V) (fs : Nat), 1 ≤ i → 1 ≤ fuel → fuel ≤ fs →
+theorem ncgLoop_sim (P : NSt K V → Prop)
+    (hP : ∀ s i s', P s → ncgEagerStep c f hessp ip gradnorm cgnorm cg i s = .next s' → P s')
+    (hA : ∀ s i, P s → cg (eagerCgArgs c cgnorm s) s.pos s.g = cg (staticCgArgs c cgnorm (sOf s i)) s.pos s.g) :
+    ∀ (fuel i : Nat) (s : NSt K V) (fs : Nat), P s → 1 ≤ i → 1 ≤ fuel → fuel ≤ fs →
     i + fuel = c.maxiter + 1 →
-    match ncgEagerLoop c f hessp ip gradnorm cg fuel i s with
-    | .ok r => ∃ v, ncgStaticLoop c f hessp ip gradnorm cg fs (sOf s i) = some v ∧ resOf v = r
-    | .error _ => ncgStaticLoop c f hessp ip gradnorm cg fs (sOf s i) = none := by
+    match ncgEagerLoop c f hessp ip gradnorm cgnorm cg fuel i s with
+    | .ok r => ∃ v, ncgStaticLoop c f hessp ip gradnorm cgnorm cg fs (sOf s i) = some v ∧ resOf v = r
+    | .error _ => ncgStaticLoop c f hessp ip gradnorm cgnorm cg fs (sOf s i) = none := by
   intro fuel
   induction fuel with
-  | zero => intro i s fs _ h; omega
+  | zero => intro i s fs _ _ h; omega
   | succ fuel ih =>
-    intro i s fs hi _ hfs hsum
+    intro i s fs hPs hi _ hfs hsum
     obtain ⟨fs', rfl⟩ : ∃ k, fs = k + 1 := ⟨fs - 1, by omega⟩
     have hstart : (sOf s i).status < -1 := by simp [sOf]
-    have hstep := ncgStep_sim c f hessp ip gradnorm cg i hi s
+    have hstep := ncgStep_sim c f hessp ip gradnorm cgnorm cg i hi s (hA s i hPs)
     simp only [ncgStaticLoop, hstart, if_true, ncgEagerLoop]
-    cases hE : ncgEagerStep c f hessp ip gradnorm cg i s with
+    cases hE : ncgEagerStep c f hessp ip gradnorm cgnorm cg i s with
     | stop r =>
       rw [hE] at hstep
       cases r with
@@ -178,12 +184,13 @@ theorem ncgLoop_sim : ∀ (fuel i : Nat) (s : NSt K V) (fs : Nat), 1 ≤ i → 1
         have : ¬ v.status < -1 := by
           have : v.status = res.status := by rw [← hres]; rfl
           omega
-        rw [ncgStaticLoop_done _ _ _ _ _ _ _ _ this]
+        rw [ncgStaticLoop_done _ _ _ _ _ _ _ _ _ this]
         exact ⟨v, rfl, hres⟩
       | error e =>
         simp only at hstep ⊢
         rw [hstep]
     | next s' =>
+      have hPs' := hP s i s' hPs hE
       rw [hE] at hstep
       simp only at hstep ⊢
       rw [hstep]
@@ -192,29 +199,33 @@ theorem ncgLoop_sim : ∀ (fuel i : Nat) (s : NSt K V) (fs : Nat), 1 ≤ i → 1
       · subst h0
         have hm : i = c.maxiter := by omega
         simp only [hm, if_true, ncgEagerLoop]
-        rw [ncgStaticLoop_done _ _ _ _ _ _ _ _ (by simp)]
+        rw [ncgStaticLoop_done _ _ _ _ _ _ _ _ _ (by simp)]
         refine ⟨_, rfl, ?_⟩
         simp [resOf, sOf]
       · have hm : ¬ i = c.maxiter := by omega
         simp only [hm, if_false]
-        have := ih (i + 1) s' fs' (by omega) hpos (by omega) (by omega)
+        have := ih (i + 1) s' fs' hPs' (by omega) hpos (by omega) (by omega)
         simpa [sOf] using this
 
-/-- `_static_newton_cg` returns exactly what `_newton_cg` returns, and raises where it raises — no guard -/
-theorem ncgStatic_sim (x0 : V) :
-    match ncgEager c f hessp ip gradnorm cg x0 with
-    | .ok r => ncgStatic c f hessp ip gradnorm cg x0 = some r
-    | .error _ => ncgStatic c f hessp ip gradnorm cg x0 = none := by
+/-- `_static_newton_cg` returns exactly what `_newton_cg` returns, and raises where it raises, whenever the CG oracle
+    answers alike for the stopping parameters the two variants derive (`hA`) along an invariant `P` of the eager run -/
+theorem ncgStatic_sim (P : NSt K V → Prop)
+    (hP : ∀ s i s', P s → ncgEagerStep c f hessp ip gradnorm cgnorm cg i s = .next s' → P s')
+    (hA : ∀ s i, P s → cg (eagerCgArgs c cgnorm s) s.pos s.g = cg (staticCgArgs c cgnorm (sOf s i)) s.pos s.g)
+    (x0 : V) (h0 : P ⟨x0, (f x0).1, (f x0).2, c.oldFval⟩) :
+    match ncgEager c f hessp ip gradnorm cgnorm cg x0 with
+    | .ok r => ncgStatic c f hessp ip gradnorm cgnorm cg x0 = some r
+    | .error _ => ncgStatic c f hessp ip gradnorm cgnorm cg x0 = none := by
   unfold ncgEager ncgStatic
   simp only []
-  rcases Nat.eq_zero_or_pos c.maxiter with h0 | hpos
-  · simp [h0, ncgEagerLoop, ncgStaticLoop]
+  rcases Nat.eq_zero_or_pos c.maxiter with hz | hpos
+  · simp [hz, ncgEagerLoop, ncgStaticLoop]
   · have hne : ¬ c.maxiter = 0 := by omega
     simp only [hne, if_false]
-    have := ncgLoop_sim c f hessp ip gradnorm cg c.maxiter 1 ⟨x0, (f x0).1, (f x0).2⟩ c.maxiter (le_refl _) hpos
-      (le_refl _) (by omega)
+    have := ncgLoop_sim c f hessp ip gradnorm cgnorm cg P hP hA c.maxiter 1 ⟨x0, (f x0).1, (f x0).2, c.oldFval⟩
+      c.maxiter h0 (le_refl _) hpos (le_refl _) (by omega)
     simp only [sOf] at this
-    cases hE : ncgEagerLoop c f hessp ip gradnorm cg c.maxiter 1 ⟨x0, (f x0).1, (f x0).2⟩ with
+    cases hE : ncgEagerLoop c f hessp ip gradnorm cgnorm cg c.maxiter 1 ⟨x0, (f x0).1, (f x0).2, c.oldFval⟩ with
     | ok r =>
       rw [hE] at this
       obtain ⟨v, hv, hr⟩ := this
@@ -226,5 +237,85 @@ theorem ncgStatic_sim (x0 : V) :
       rw [hE] at this
       simp only at this ⊢
       rw [this]; rfl
+
+/-- when the two variants derive the same stopping parameters for the inner CG -/
+theorem cgArgs_eq (e : K) (he : c.erf = some e) (he0 : e ≠ 0) (s : NSt K V) (i : Nat) (h1 : s.oldF ≠ some 0)
+    (h2 : s.oldF = none → c.absdelta ≠ none) : eagerCgArgs c cgnorm s = staticCgArgs c cgnorm (sOf s i) := by
+  unfold eagerCgArgs staticCgArgs sOf
+  cases ho : s.oldF with
+  | none =>
+    have := h2 ho
+    cases ha : c.absdelta with
+    | none => exact absurd ha this
+    | some a => simp [truthy, he]
+  | some o =>
+    have ho0 : o ≠ 0 := fun h => h1 (by rw [ho, h])
+    simp [truthy, he, ho0, he0]
+
+/-! ### the compiled minimiser never goes uphill (direct invariant, no equivalence guard needed) -/
+
+theorem lsEager_specE (pos : V) (energy : K) (g natg : V)
+    (h : (lineSearchEager f hessp ip pos energy g natg).found = true) :
+    (lineSearchEager f hessp ip pos energy g natg).newEnergy = (f (lineSearchEager f hessp ip pos energy g natg).newPos).1
+    ∧ (lineSearchEager f hessp ip pos energy g natg).newG = (f (lineSearchEager f hessp ip pos energy g natg).newPos).2
+    ∧ (lineSearchEager f hessp ip pos energy g natg).newEnergy ≤ energy := by
+  have key : ∀ (fuel ls : Nat) (gs : K) (dd : V) (reset : Bool),
+      (lsEager f hessp ip pos energy g fuel ls gs dd reset).found = true →
+      (lsEager f hessp ip pos energy g fuel ls gs dd reset).newEnergy
+          = (f (lsEager f hessp ip pos energy g fuel ls gs dd reset).newPos).1
+      ∧ (lsEager f hessp ip pos energy g fuel ls gs dd reset).newG
+          = (f (lsEager f hessp ip pos energy g fuel ls gs dd reset).newPos).2
+      ∧ (lsEager f hessp ip pos energy g fuel ls gs dd reset).newEnergy ≤ energy := by
+    intro fuel
+    induction fuel with
+    | zero => intro ls gs dd reset h; simp [lsEager] at h
+    | succ fuel ih =>
+      intro ls gs dd reset
+      simp only [lsEager]
+      split_ifs with h1 h2
+      · intro _; exact ⟨rfl, rfl, h1⟩
+      · exact ih _ _ _ _
+      · exact ih _ _ _ _
+  exact key 9 0 1 natg false h
+
+def SInv (E0 : K) (v : SSt K V) : Prop := v.energy = (f v.pos).1 ∧ v.g = (f v.pos).2 ∧ v.energy ≤ E0
+
+theorem ncgStaticStep_inv (E0 : K) (v v' : SSt K V) (hv : SInv f E0 v) (hs : v.status < -1)
+    (h : ncgStaticStep c f hessp ip gradnorm cgnorm cg v = some v') : SInv f E0 v' := by
+  obtain ⟨h1, h2, h3⟩ := hv
+  have hls := lineSearch_sim f hessp ip v.pos v.energy v.g (cg (staticCgArgs c cgnorm v) v.pos v.g).1
+  unfold ncgStaticStep at h
+  simp only [] at h
+  by_cases hc : (cg (staticCgArgs c cgnorm v) v.pos v.g).2 < 0
+  · simp [hc] at h
+  · simp only [hc, if_false, Option.some.injEq] at h
+    subst h
+    by_cases hf : (lineSearchEager f hessp ip v.pos v.energy v.g (cg (staticCgArgs c cgnorm v) v.pos v.g).1).found = true
+    · obtain ⟨hs0, hp, he, hg, _⟩ := hls.1 hf
+      obtain ⟨a, b, c'⟩ := lsEager_specE f hessp ip v.pos v.energy v.g _ hf
+      simp only [SInv, hs0, ne_eq, not_true_eq_false, if_false, hs, if_true, hp, he, hg]
+      exact ⟨a, b, le_trans c' h3⟩
+    · have hf' : (lineSearchEager f hessp ip v.pos v.energy v.g (cg (staticCgArgs c cgnorm v) v.pos v.g).1).found = false := by
+        simpa using hf
+      have hs1 := hls.2 hf'
+      simp only [SInv, hs1, ne_eq, show ¬ ((-1 : Int) = 0) from by omega, not_false_eq_true, if_true,
+        show ¬ ((-1 : Int) < -1) from by omega, if_false]
+      exact ⟨h1, h2, h3⟩
+
+theorem ncgStaticLoop_inv (E0 : K) : ∀ (fuel : Nat) (v v' : SSt K V), SInv f E0 v →
+    ncgStaticLoop c f hessp ip gradnorm cgnorm cg fuel v = some v' → SInv f E0 v' := by
+  intro fuel
+  induction fuel with
+  | zero => intro v v' hv h; simp only [ncgStaticLoop, Option.some.injEq] at h; subst h; exact hv
+  | succ fuel ih =>
+    intro v v' hv h
+    simp only [ncgStaticLoop] at h
+    split_ifs at h with hs
+    · cases hstep : ncgStaticStep c f hessp ip gradnorm cgnorm cg v with
+      | none => rw [hstep] at h; simp at h
+      | some w =>
+        rw [hstep] at h
+        exact ih w v' (ncgStaticStep_inv c f hessp ip gradnorm cgnorm cg E0 v w hv hs hstep) h
+    · simp only [Option.some.injEq] at h; subst h; exact hv
 
 end NiftyVerif.NewtonRe
